@@ -86,9 +86,7 @@ func genResv(c *h.Ctx) {
 	for _, list := range [][]string{resvWords, resvControls} {
 		for _, w := range list {
 			for _, sp := range spellings(w) {
-				if !strings.Contains(w, "\u200c") && !strings.Contains(w, "\u200d") {
-					c.Add("resvtok x"+astx.Hex(sp), "resvtok")
-				}
+				c.Add("resvtok x"+astx.Hex(sp), "resvtok")
 				for _, p := range resvPositions {
 					c.Add("resv "+p.name+" x"+astx.Hex(sp), "resv", "resv:"+p.name)
 				}
